@@ -15,7 +15,7 @@ package main
 // fetched without error and the late sanity check passed; trash is not
 // committed if committing pulls failed; trash lists are cleared only before
 // the state is fetched.
-//@ func Balancer.Run property C06
+//@ func Balancer.Run property C06,C05
 //@   ghost fetched bool = false
 //@   ghost stateOK bool = false
 //@   ghost sane bool = false
@@ -30,14 +30,14 @@ package main
 //@   calls Balancer.CommitTrash#1: requires stateOK && sane && pulled
 
 // CheckSanityLate: nil only if collections were scanned and no deferred error exists.
-//@ func Balancer.CheckSanityLate property C06
+//@ func Balancer.CheckSanityLate property C06,C05
 //@   ensures result == nil ==> old(bal.collScanned) > 0 && old(len(bal.errors)) == 0
 
 // EachCollection: every error of the API call or of f is returned; the paging
 // loop is left normally only on an empty page outside exact-timestamp mode;
 // nil is returned only if at least as many collections were handed to f as
 // the server counted afterwards.
-//@ func EachCollection property C06 safety -bounds
+//@ func EachCollection property C06,C05 safety -bounds
 //@   ghost ferr error = nil
 //@   ghost rerr error = nil
 //@   calls f#1: set ferr = $r
@@ -179,7 +179,7 @@ package main
 // countCollections: the expected number of collections is the API server's
 // exact count for the given filter with no items requested, and a failed
 // request is reported.
-//@ func countCollections property C06
+//@ func countCollections property C06,C05
 //@   ghost rerr error = nil
 //@   calls Client.RequestAndDecode#1: requires $1 == "GET" && $2 == "arvados/v1/collections" && params.Count == "exact" && *params.Limit == 0
 //@   calls Client.RequestAndDecode#1: set rerr = $r
